@@ -13,6 +13,8 @@ import (
 
 	"github.com/evolbioinfo/goalign/align"
 	gcmd "github.com/evolbioinfo/goalign/cmd"
+	"github.com/spf13/cobra"
+	"github.com/spf13/pflag"
 	"github.com/evolbioinfo/goalign/verifrt"
 )
 
@@ -272,7 +274,7 @@ func (c11) Gen(rs uint64, tier string, race bool) interface{} {
 		c.Mode = "pipeline-reformat"
 	case x == 1:
 		c.Mode = "pipeline-distboot"
-	case x <= 4:
+	case x <= 8:
 		c.Mode = "sched"
 	}
 	// unaligned sequences with an ORF (C16's generator)
@@ -353,8 +355,9 @@ func (c11) Gen(rs uint64, tier string, race bool) interface{} {
 		c.Args = []string{c11Models[r.Intn(len(c11Models))], fmt.Sprint(r.Range(1, 3))}
 		return c
 	case "sched":
-		k := r.Intn(8)
+		k := r.Intn(12)
 		if k >= 4 {
+			k = 4 + k%4
 			// a stream of several Phylip alignments, the last one possibly malformed: the parser
 			// goroutine runs ahead of the command's consumer loop by a schedule-dependent distance
 			na := r.Range(2, 8)
@@ -370,7 +373,7 @@ func (c11) Gen(rs uint64, tier string, race bool) interface{} {
 				ms.WriteString(phylipOf(mn[:3], mq[:3]))
 			}
 			switch r.Intn(4) {
-			case 0:
+			case 0, 3:
 				ms.WriteString("   3   8\nSeq0000  ACGTACGT\nSeq0001  ACG\n") // truncated last alignment
 			case 1:
 				ms.WriteString("   2   8\nSeq0000  ACGTACGT\nSeq0001  ACGTACGTAA\n") // wrong length
@@ -390,6 +393,21 @@ func (c11) Gen(rs uint64, tier string, race bool) interface{} {
 			default:
 				c.Key = "sched subseq stream"
 				c.Args = strings.Fields("subseq -s 1 -l 3 --ref-seq none --reverse=false --step 0 -i {dir}/multi.phy --phylip=true -o {dir}/out.txt")
+			}
+			if r.Chance(0.7) {
+				// any of the commands that take the nucleotide alignment (every flag is reset to its default before each
+				// in-process execution, so only the flags of the template matter)
+				var cands []c11Tmpl
+				for _, t := range c11Templates {
+					if t.in == "nt" && !t.seeded && strings.Contains(t.args, "{in}") {
+						cands = append(cands, t)
+					}
+				}
+				t := cands[r.Intn(len(cands))]
+				c.Key = "sched stream " + t.key
+				a := strings.ReplaceAll(t.args, "{in}", "-i multi.phy -p")
+				a = strings.ReplaceAll(a, "{model}", c11Models[r.Intn(len(c11Models))])
+				c.Args = strings.Fields(a)
 			}
 			return c
 		}
@@ -735,9 +753,15 @@ func (c *C11Case) runSched(ctx *Ctx, o *Outcome, fail func(string, string, ...in
 		defer verifrt.SetMapSeed(0, false)
 		defer verifrt.SetClock(0, false)
 		var res outc
+		// the command runs inside the run's directory (relative output names), with every flag back to its default
+		if wd, err := os.Getwd(); err == nil {
+			os.Chdir(abs)
+			defer os.Chdir(wd)
+		}
+		resetCobraFlags(gcmd.RootCmd)
 		// what the command prints goes to a file of the run's directory
 		oldStdout := os.Stdout
-		if sf, err := os.Create(filepath.Join(dir, "stdout.txt")); err == nil {
+		if sf, err := os.Create(filepath.Join(abs, "stdout.txt")); err == nil {
 			os.Stdout = sf
 			defer func() { os.Stdout = oldStdout; sf.Close() }()
 		}
@@ -746,11 +770,19 @@ func (c *C11Case) runSched(ctx *Ctx, o *Outcome, fail func(string, string, ...in
 			res.err = gcmd.RootCmd.Execute()
 		})
 		res.files = map[string][]byte{}
-		for _, n := range []string{"out.txt", "out.aa", "stdout.txt"} {
-			if b, e := os.ReadFile(filepath.Join(dir, n)); e == nil {
-				res.files[n] = b
+		filepath.Walk(abs, func(p string, info os.FileInfo, err error) error {
+			if err != nil || info.IsDir() {
+				return nil
 			}
-		}
+			rel, _ := filepath.Rel(abs, p)
+			if _, isInput := c.Files[rel]; isInput {
+				return nil
+			}
+			if b, e := os.ReadFile(p); e == nil {
+				res.files[rel] = b
+			}
+			return nil
+		})
 		return res
 	}
 	a := run(0, 1)
@@ -781,12 +813,13 @@ func (c *C11Case) runSched(ctx *Ctx, o *Outcome, fail func(string, string, ...in
 			return
 		}
 	}
+	errClass := "depends-on-schedule"
 	if exits[0] != exits[1] {
-		fail("depends-on-schedule", "the command exits with status %d under one schedule and %d under another (-1 = no exit)", exits[0], exits[1])
+		fail(errClass, "the command exits with status %d under one schedule and %d under another (-1 = no exit)", exits[0], exits[1])
 		return
 	}
 	if (a.err == nil) != (b.err == nil) {
-		fail("depends-on-schedule", "the command returns %v under one schedule and %v under another", a.err, b.err)
+		fail(errClass, "the command returns %v under one schedule and %v under another", a.err, b.err)
 		return
 	}
 	if a.err != nil {
@@ -794,13 +827,37 @@ func (c *C11Case) runSched(ctx *Ctx, o *Outcome, fail func(string, string, ...in
 	}
 	o.Nontrivial = true
 	o.Sig = hash64(o.Sig, a.sr.Hash, b.sr.Hash)
-	for _, n := range []string{"out.txt", "out.aa", "stdout.txt"} {
+	var fnames []string
+	for n := range a.files {
+		fnames = append(fnames, n)
+	}
+	for n := range b.files {
+		if _, ok := a.files[n]; !ok {
+			fnames = append(fnames, n)
+		}
+	}
+	sort.Strings(fnames)
+	for _, n := range fnames {
 		if !bytes.Equal(a.files[n], b.files[n]) {
 			fail("depends-on-schedule", "file %s differs between (1 thread, schedule seed %d) and (%d threads, schedule seed %d): %s", n, c.SchedSeed[0], c.Threads, c.SchedSeed[1], firstDiff(a.files[n], b.files[n]))
 			return
 		}
 	}
 	o.Sample = map[string]interface{}{"mode": "sched", "args": c.Args, "threads": []int{1, c.Threads}, "steps": []int{a.sr.Steps, b.sr.Steps}, "policies": []string{policyNames[c.Policy[0]%nPolicies], policyNames[c.Policy[1]%nPolicies]}, "trace_head": head(b.sr.Trace, 10)}
+}
+
+// resetCobraFlags puts every flag of every command back to its default: cobra keeps flag values between two
+// executions in one process, and a replay in a fresh process must see what the batch run saw.
+func resetCobraFlags(cmd *cobra.Command) {
+	reset := func(f *pflag.Flag) {
+		f.Value.Set(f.DefValue)
+		f.Changed = false
+	}
+	cmd.Flags().VisitAll(reset)
+	cmd.PersistentFlags().VisitAll(reset)
+	for _, sub := range cmd.Commands() {
+		resetCobraFlags(sub)
+	}
 }
 
 func (c11) Shrink(ci interface{}) []interface{} {
